@@ -156,6 +156,35 @@ Theorem C15_line_string_at_agrees : forall t ns us,
 Proof. exact line_string_at_agrees_lemma. Qed.
 Print Assumptions C15_line_string_at_agrees.
 
+(* The same with "fully annotated" read AT TIME t, which is how the property text is understood
+   here: the stored way is fully annotated, every due update names an existing node, and the
+   way is still fully annotated once the due updates are applied.  This hypothesis is implied by
+   the one above ([C15_annotated_at_from_updates_ok]) and is the one the per-case oracle uses. *)
+Theorem C15_line_string_at_agrees_annotated_at_t : forall t ns us,
+  annotated_at t ns us = true ->
+  way_apply t ns us = AOk (spec_nodes t us ns) (spec_pending t us) /\
+  line_string_at t ns us = Some (line_string (spec_nodes t us ns)).
+Proof. exact line_string_at_agrees_at_t. Qed.
+Print Assumptions C15_line_string_at_agrees_annotated_at_t.
+
+Theorem C15_annotated_at_from_updates_ok : forall t ns us,
+  fully_annotated ns = true -> updates_ok t (length ns) us = true -> annotated_at t ns us = true.
+Proof. exact updates_ok_annotated_at. Qed.
+
+(* The hypothesis is needed, and this is the code's behaviour (replayed on /repo, corpus case of
+   the harness): a due update that zeroes version, lat and lon of the only node makes the
+   applied copy NOT fully annotated; LineString() of the copy drops the node, LineStringAt(t)
+   (which tests the STORED node) keeps the point (0,0).  Such a way is not "fully annotated" at t,
+   so the property's premise fails there; this is a domain witness, not a finding. *)
+Theorem C15_line_string_at_zero_update_hypothesis_needed : exists t ns us ns' p,
+  fully_annotated ns = true /\ all_in_range t (length ns) us = true /\ annotated_at t ns us = false /\
+  way_apply t ns us = AOk ns' p /\ line_string_at t ns us <> Some (line_string ns').
+Proof.
+  exists 10, [mkNode 1 1 0 1 1], [mkUpdate 0 0 5 0 0 0 false]. eexists. eexists.
+  split; [reflexivity|]. split; [reflexivity|]. split; [reflexivity|].
+  split; [vm_compute; reflexivity|]. vm_compute. discriminate.
+Qed.
+
 (* without the annotation hypotheses: whenever the due updates are in range, LineStringAt(t) is
    the list of points of the applied copy filtered by which ORIGINAL nodes are annotated (so
    the two queries differ exactly when applying an update changes whether a node counts as
@@ -201,18 +230,18 @@ Theorem C15_less_index_strict_weak :
                  less_index c b = false -> less_index a c = false /\ less_index c a = false).
 Proof. split; [exact less_index_irrefl|split; [exact less_index_trans|exact less_index_incomp_trans]]. Qed.
 
-Theorem C15_sorted_by_timestamp : forall l l',
-  Permutation l l' -> sorted_for less_ts l' ->
+Theorem C15_sorted_by_timestamp : forall l',
+  sorted_for less_ts l' ->
   StronglySorted (fun a b => u_ts a <= u_ts b) l' /\ per_index_sorted l' = true.
-Proof. intros l l' _ H. split; [apply sorted_ts_nondecreasing|apply sorted_ts_per_index_sorted]; exact H. Qed.
+Proof. intros l' H. split; [apply sorted_ts_nondecreasing|apply sorted_ts_per_index_sorted]; exact H. Qed.
 Print Assumptions C15_sorted_by_timestamp.
 
-Theorem C15_sorted_by_index : forall l l',
-  Permutation l l' -> sorted_for less_index l' ->
+Theorem C15_sorted_by_index : forall l',
+  sorted_for less_index l' ->
   StronglySorted (fun a b => u_index a < u_index b \/ (u_index a = u_index b /\
       (u_ts a < u_ts b \/ (u_ts a = u_ts b /\ u_ver a <= u_ver b)))) l' /\
   per_index_sorted l' = true.
-Proof. intros l l' _ H. split; [apply sorted_index_lex|apply sorted_index_per_index_sorted]; exact H. Qed.
+Proof. intros l' H. split; [apply sorted_index_lex|apply sorted_index_per_index_sorted]; exact H. Qed.
 Print Assumptions C15_sorted_by_index.
 
 (* whatever permutation sort.Sort picks among ties, the sequence of sort keys is determined *)
